@@ -155,6 +155,19 @@ def _m_new_zeros(it, x, *shape, requires_grad=False, **kw):
     return t_zeros(shape, dtype=x.meta.get('dtype', DT_IN), kind='torch', requires_grad=requires_grad)
 
 
+UNINIT = [0]
+
+
+def _m_new_empty(it, x, *shape, **kw):
+    """uninitialised memory: every element is a distinct unknown, so a result that still depends on one cannot match any spec"""
+    if len(shape) == 1 and isinstance(shape[0], (list, tuple)):
+        shape = tuple(shape[0])
+    UNINIT[0] += 1
+    nm = 'uninit%d' % UNINIT[0]
+    dt = kw.get('dtype') if kw.get('dtype') is not None else x.meta.get('dtype', DT_IN)
+    return STensor(tuple(shape), lambda idx, nm=nm: GS.atom(nm, idx, True), meta={'kind': 'torch', 'dtype': dt, 'contig': True})
+
+
 def _m_ravel(it, x):
     if x.ndim == 1:
         return x
@@ -399,6 +412,8 @@ TMETH = {
     'clamp': lambda it, x, min=None, max=None: _t_clamp(x, min, max),
     'clamp_min': lambda it, x, min: _t_clamp(x, min, None),
     'clamp_max': lambda it, x, max: _t_clamp(x, None, max),
+    'unflatten': lambda it, x, dim, sizes: _m_unflatten(x, dim, sizes),
+    'movedim': lambda it, x, src, dst: _m_movedim(x, src, dst),
     'unbind': lambda it, x, dim=0: t_unbind(x, dim),
     'select': lambda it, x, dim, index: tget(x, tuple([slice(None)] * _dims(x, dim) + [index])),
     'index_select': lambda it, x, dim, index: t_index_select(x, dim, index),
@@ -423,7 +438,11 @@ TMETH = {
     'contiguous': lambda it, x: t_contiguous(x),
     'transpose': _m_np_transpose,
     'repeat': lambda it, x, *r: t_repeat(x, *r),
-    'new_zeros': _m_new_zeros,
+    'new_zeros': _m_new_zeros, 'new_empty': _m_new_empty,
+    'copy_': lambda it, x, src: (tset(x, tuple([slice(None)] * x.ndim), src), x)[1],
+    'add_': lambda it, x, o: (inplace_write(it, x, t_bin('+', x, o)), x)[1], 'mul_': lambda it, x, o: (inplace_write(it, x, t_bin('*', x, o)), x)[1],
+    'div_': lambda it, x, o: (inplace_write(it, x, t_bin('/', x, o)), x)[1], 'sub_': lambda it, x, o: (inplace_write(it, x, t_bin('-', x, o)), x)[1],
+    'zero_': lambda it, x: (tset(x, tuple([slice(None)] * x.ndim), 0), x)[1],
     'ravel': _m_ravel,
     'copy': _m_copy,
     'clone': _m_copy,
@@ -436,6 +455,23 @@ TMETH = {
     'mean': lambda it, x, dim=None, keepdim=False: _t_reduce(x, dim, keepdim, True),
     'sum': lambda it, x, dim=None, keepdim=False: _t_reduce(x, dim, keepdim, False),
 }
+
+
+def _m_unflatten(x, dim, sizes):
+    d = _dims(x, dim)
+    sizes = list(sizes)
+    if sum(1 for q in sizes if is_conc(q) and q == -1) > 1:
+        raise Raised('RuntimeError', 'only one dimension can be inferred')
+    return t_reshape(x, *(list(x.shape[:d]) + sizes + list(x.shape[d + 1:])))
+
+
+def _m_movedim(x, src, dst):
+    if not (is_conc(src) and is_conc(dst)):
+        raise Unsupported('movedim with several / symbolic axes')
+    s_, d_ = src % x.ndim, dst % x.ndim
+    order = [k for k in range(x.ndim) if k != s_]
+    order.insert(d_, s_)
+    return t_permute(x, order)
 
 
 def _t_clamp(x, lo, hi):
@@ -769,6 +805,31 @@ def _np_copy(x):
     raise Unsupported('np.copy')
 
 
+def _math_sqrt(v):
+    if is_conc(v) or isinstance(v, float):
+        if v == 2:
+            return SQRT2
+        r = int(round(float(v) ** 0.5))
+        if r * r == v:
+            return r
+    raise Unsupported('math.sqrt(%r)' % (v,))
+
+
+def _math_int(fn):
+    import math
+
+    def f(v):
+        if isinstance(v, (int, float, Fr)) and not isinstance(v, bool):
+            return getattr(math, fn)(v)
+        if isz(v) and fn in ('floor', 'ceil', 'trunc'):
+            return v
+        raise Unsupported('math.%s(%r)' % (fn, v))
+    return f
+
+
+MATH_NS = None
+
+
 def _np_sqrt(v):
     if is_conc(v) and v == 2:
         return SQRT2
@@ -818,6 +879,7 @@ def setup_namespaces():
         'add': lambda a, b: t_bin('+', a, b), 'sub': lambda a, b: t_bin('-', a, b), 'mul': lambda a, b: t_bin('*', a, b),
         'div': lambda a, b: t_bin('/', a, b), 'neg': lambda a: t_bin('*', a, -1),
         'is_tensor': lambda v: isinstance(v, STensor),
+        'unflatten': lambda x, dim, sizes: _m_unflatten(x, dim, sizes), 'movedim': lambda x, a, b: _m_movedim(x, a, b),
         'clamp': lambda x, min=None, max=None: _t_clamp(x, min, max),
         'autograd': NS('torch.autograd', {'Function': __import__('cbv.interp', fromlist=['x']).TY_FUNCTION}),
     })
@@ -830,9 +892,13 @@ def setup_namespaces():
                       'array': _np_array, 'pad': _np_pad, 'clip': _np_clip, 'minimum': _np_minmax('minimum'), 'maximum': _np_minmax('maximum'),
                       'abs': _np_abs, 'ones': _np_ones, 'outer': _np_outer,
                       'stack': _np_stack, 'atleast_2d': _np_atleast_2d, 'repeat': _np_repeat,
-                      'expand_dims': _np_expand_dims, 'newaxis': None,
+                      'expand_dims': _np_expand_dims, 'newaxis': None, 'asarray': lambda x, dtype=None: _np_array(x, dtype),
                       'int32': 'int32', 'int64': 'int64', 'int_': 'int64', 'float32': 'float32', 'float64': 'float64',
                       'copy': _np_copy, 'sqrt': _np_sqrt, 'ndarray': TY_NDARRAY, 'load': Opaque_('np.load')})
+    global MATH_NS
+    MATH_NS = NS('math', {'sqrt': _math_sqrt, 'floor': _math_int('floor'), 'ceil': _math_int('ceil'), 'trunc': _math_int('trunc'),
+                          'log2': _math_int('log2'), 'gcd': _math_int('gcd') if False else (lambda a, b: __import__('math').gcd(a, b)),
+                          'pi': __import__('math').pi, 'inf': float('inf')})
     PYWT_NS = NS('pywt', {'dwt_coeff_len': _dwt_coeff_len, 'Wavelet': TY_WAVELET})
 
 
@@ -947,6 +1013,8 @@ def _len(v):
         return v.shape[0]
     if isinstance(v, SList):
         return simp(I(v.n) + len(v.tail))
+    if isinstance(v, PList):
+        return v.length()
     raise Unsupported('len(%r)' % (v,))
 
 
@@ -1026,6 +1094,16 @@ def _hasattr(it, o, k):
         raise
 
 
+def _set(xs=()):
+    xs = list(xs)
+    if all(is_conc(q) or isinstance(q, str) for q in xs):
+        return set(xs)
+    from .interp import SymSet
+    if all(is_conc(q) or isz(q) for q in xs):
+        return SymSet(xs)
+    raise Unsupported('set of non-integer symbolic values')
+
+
 def _truth(v):
     if isinstance(v, (z3.BoolRef, z3.ArithRef)):
         return ctx().decide(v if isinstance(v, z3.BoolRef) else I(v) != 0)
@@ -1054,6 +1132,9 @@ def _sum(it):
 
 
 def _sorted(xs, **kw):
+    from .interp import SymSet
+    if isinstance(xs, SymSet):
+        raise Unsupported('sorted() of symbolic values')
     xs = list(xs)
     if kw or not all(is_conc(v) for v in xs):
         raise Unsupported('sorted() of symbolic values')
@@ -1073,6 +1154,7 @@ def builtins(it):
          'str': str, 'max': _minmax(False), 'min': _minmax(True), 'abs': _abs, 'print': lambda *a, **k: None,
          'True': True, 'False': False, 'None': None,
          'setattr': lambda o, k, v: obj_setattr(it, o, k, v), 'getattr': lambda o, k, *d: _getattr(it, o, k, *d), 'hasattr': lambda o, k: _hasattr(it, o, k),
+         'set': _set, 'frozenset': _set,
          'slice': slice, 'Ellipsis': Ellipsis, 'id': id, 'type': lambda v: type(v), 'map': lambda f, *xs: [it.call_value(f, list(a), {}) for a in zip(*xs)],
          'enumerate': lambda xs, start=0: [(start + k, v) for k, v in enumerate(_list(xs) if not isinstance(xs, (list, tuple)) else xs)],
          'reversed': lambda xs: list(reversed(_list(xs) if not isinstance(xs, (list, tuple)) else list(xs))),
